@@ -12,6 +12,7 @@ import OFV.Proofs.C01Sort
 import OFV.Proofs.C01Qubit
 import OFV.Proofs.C01Ising
 import OFV.Proofs.C01Majorana
+import OFV.Proofs.C01Hom
 
 namespace OFV.C01
 open OFV OFV.Spec OFV.Generated OFV.Model
@@ -193,5 +194,87 @@ theorem mul_term_sound_qubit (lt rt : Term) (hl : ActionsOk lt) (hr : ActionsOk 
   rw [h1, h2, actPTerm_eq (lt ++ rt), List.foldr_append, ← actPTerm_eq rt s]
   refine ⟨key.1, ?_⟩
   rw [← ipow_mod, key.2, ipow_mod]
+
+
+/-! ### operator level: dictionaries of terms
+
+`den φ A = Σ_{(τ,c) ∈ A} c · φ τ` for an arbitrary term functional `φ`; with
+`φ = melTermQ s t` (matrix element `⟨t|τ|s⟩` of a Pauli term in the Spec) `den` is the matrix
+element of the operator, so the statements below say that the Model's `+=`, `-=`, scalar `*`
+and operator `*` are the sums / products of the denoted linear operators. -/
+
+/-- Spec matrix element `⟨t| τ |s⟩` of a Pauli term -/
+def melTermQ (s t : Nat) (τ : Term) : GQ :=
+  if (actPTerm τ s).2 = t then GQ.ipow (actPTerm τ s).1 else 0
+
+/-- **`⟦A += B⟧ = ⟦A⟧ + ⟦B⟧`** for every class and every term functional, in the exact regime
+(no intermediate coefficient is non-zero but below the deletion tolerance; insertion order,
+key positions and the deletion of cancelled terms are all covered). -/
+theorem add_hom (tol : Rat) (φ : Term → GQ) (A B : Op) (h : ExactAdd tol A B) :
+    den φ (iadd tol A B) = den φ A + den φ B :=
+  den_iadd tol φ A B h
+
+/-- **`⟦A -= B⟧ = ⟦A⟧ - ⟦B⟧`** likewise. -/
+theorem sub_hom (tol : Rat) (φ : Term → GQ) (A B : Op)
+    (h : ExactAdd tol A (B.map fun e => (e.1, -e.2))) :
+    den φ (isub tol A B) = den φ A - den φ B := by
+  rw [isub_eq_iadd_neg, den_iadd tol φ _ _ h, den_map_neg, GQ.sub_eq_add_neg']
+
+/-- **`⟦c · A⟧ = c · ⟦A⟧`** (also `/`, unary `-`, which the code routes through scalar `*`). -/
+theorem smul_hom (φ : Term → GQ) (c : GQ) (A : Op) : den φ (smul c A) = c * den φ A :=
+  den_smul φ c A
+
+/-- **`⟦A · B⟧` is the bilinear extension of the term product** for every class and functional:
+the double loop with dictionary accumulation (repeated result keys merged, insertion order
+irrelevant) computes `Σ_l Σ_r c_l c_r · (k · φ τ')` with `(k, τ') = _simplify(τ_l + τ_r)`. -/
+theorem mul_bilinear (cls : Cls) (φ : Term → GQ) (A B : Op) :
+    den φ (mulOp cls A B) =
+      bil (fun lt rt => (simplify cls (lt ++ rt)).1 * φ (simplify cls (lt ++ rt)).2) A B :=
+  den_mulOp cls φ A B
+
+/-- **Qubit products are products of the denoted operators**: every matrix element of
+`A · B` (QubitOperator) is `Σ_{l,r} c_l c_r ⟨t| τ_l τ_r |s⟩` — simplification (sorting, Pauli
+table, identity removal) changes nothing. -/
+theorem mul_hom_qubit (A B : Op) (hA : ∀ e ∈ A, ActionsOk e.1) (hB : ∀ e ∈ B, ActionsOk e.1)
+    (s t : Nat) :
+    den (melTermQ s t) (mulOp .qubit A B) = bil (fun lt rt => melTermQ s t (lt ++ rt)) A B := by
+  rw [den_mulOp]
+  apply bil_congr
+  intro l hl r hr
+  have hok : ActionsOk (l.1 ++ r.1) := by
+    intro f hf
+    rcases List.mem_append.mp hf with h | h
+    · exact hA l hl f h
+    · exact hB r hr f h
+  obtain ⟨h1, h2⟩ := simplifyQubit_sound (l.1 ++ r.1) hok s
+  show (simplifyQubit (l.1 ++ r.1)).1 * melTermQ s t (simplifyQubit (l.1 ++ r.1)).2 = _
+  unfold melTermQ
+  by_cases ht : (actPTerm (l.1 ++ r.1) s).2 = t
+  · rw [if_pos ht, if_pos (h1.trans ht)]; exact h2
+  · rw [if_neg ht, if_neg (fun h => ht (h1.symm.trans h))]; exact GQ.mul_zero' _
+
+/-- Fermionic products: `_simplify` is the identity, so `⟦A · B⟧` is literally the bilinear
+extension of concatenation (the CAR are only applied by `normal_ordered`, C03). -/
+theorem mul_hom_fermion (φ : Term → GQ) (A B : Op) :
+    den φ (mulOp .fermion A B) = bil (fun lt rt => φ (lt ++ rt)) A B := by
+  rw [den_mulOp]
+  apply bil_congr
+  intro l _ r _
+  simp only [simplify, GQ.one_mul']
+
+/-- the matrix element of a concatenation factors through the intermediate basis state -/
+theorem melTerm_concat (lt rt : Term) (s t : Nat) :
+    melTermQ s t (lt ++ rt) =
+      melTermQ (actPTerm rt s).2 t lt * GQ.ipow (actPTerm rt s).1 := by
+  have key := foldr_stepP_from lt (actPTerm rt s)
+  simp only [melTermQ]
+  rw [actPTerm_eq (lt ++ rt), List.foldr_append, ← actPTerm_eq rt s, key.1]
+  split
+  · rw [ipow_mul, ← ipow_mod, key.2, ipow_mod, Nat.add_comm]
+  · exact (GQ.zero_mul' _).symm
+
+example : ExactAdd GQ.eqTol [([(0, 1)], 1)] [([(0, 1)], -1), ([(2, 3)], GQ.I)] := by
+  refine ⟨fun _ => by decide +kernel, fun h => ?_, trivial⟩
+  exact absurd h (by decide +kernel)
 
 end OFV.C01
